@@ -126,15 +126,18 @@ type Consumer struct {
 
 // Case is one replayable scenario.
 type Case struct {
-	WKind string   `json:"wkind"`               // label of the wrapped writer: full|shortErr|shortNil|fail0|failN|mixed
-	SW    bool     `json:"sw"`                  // wrapped writer implements io.StringWriter
-	RF    bool     `json:"rf,omitempty"`        // wrapped writer also implements io.ReaderFrom (deep scenarios)
-	Prof  string   `json:"profile,omitempty"`   // deep scenarios: history | pow2 | boundary | stream; "callers"
-	OSW   string   `json:"os_writer,omitempty"` // callers: wrapped writer backed by the OS (tmpfile, devnull, devfull, brokenpipe, pipequota)
-	Quota int      `json:"quota,omitempty"`     // pipequota: bytes the pipe's reader takes before it goes away
-	Ops   []Op     `json:"ops"`
-	Cons  Consumer `json:"consumer"`
-	Procs int      `json:"procs,omitempty"` // GOMAXPROCS the case was observed under (replay hint)
+	WKind string `json:"wkind"`               // label of the wrapped writer: full|shortErr|shortNil|fail0|failN|mixed
+	SW    bool   `json:"sw"`                  // wrapped writer implements io.StringWriter
+	RF    bool   `json:"rf,omitempty"`        // wrapped writer also implements io.ReaderFrom (deep scenarios)
+	Prof  string `json:"profile,omitempty"`   // deep scenarios: history | pow2 | boundary | stream; "callers"
+	OSW   string `json:"os_writer,omitempty"` // callers: wrapped writer backed by the OS (tmpfile, devnull, devfull, brokenpipe, pipequota)
+	// wrapped writer has a Close method: "ok", "fail" (returns an error), "already" (the caller closed it
+	// before pw.Close: a second Close fails, like a closed *os.File), "slow" (yields, then succeeds)
+	Closer string   `json:"closer,omitempty"`
+	Quota  int      `json:"quota,omitempty"` // pipequota: bytes the pipe's reader takes before it goes away
+	Ops    []Op     `json:"ops"`
+	Cons   Consumer `json:"consumer"`
+	Procs  int      `json:"procs,omitempty"` // GOMAXPROCS the case was observed under (replay hint)
 	// Long scenario: Ops is empty and stands for LongN writes of 1..16 bytes derived from LongSeed.
 	LongN    int   `json:"long_n,omitempty"`
 	LongSeed int64 `json:"long_seed,omitempty"`
@@ -187,21 +190,25 @@ func swName(sw bool) string {
 
 // sink is the scripted wrapped writer; it is only touched by the writer goroutine.
 type sink struct {
-	beh      int
-	cut      uint32
-	total    int   // Σ reported n: the ground truth for Size()
-	prefix   []int // total after every call
-	calls    int
-	strCalls int
-	perBeh   [5]int
-	opSize   int    // payload size of the op in flight (ReadFrom behaviours)
-	scratch  []byte // ReadFrom chunk buffer
-	block    int    // > 0: park in the next call until released (deep scenarios)
-	blocked  int
-	rfCalls  int
-	lastBeh  int // effective behaviour of the last call
-	lastN    int
-	lastErr  error
+	beh           int
+	cut           uint32
+	total         int   // Σ reported n: the ground truth for Size()
+	prefix        []int // total after every call
+	calls         int
+	strCalls      int
+	perBeh        [5]int
+	closeKind     string
+	closeCalls    int    // calls of the wrapped Close
+	closeCallsLib int    // ... of which during pw.Close()
+	inPwClose     bool   // the writer goroutine is inside pw.Close()
+	opSize        int    // payload size of the op in flight (ReadFrom behaviours)
+	scratch       []byte // ReadFrom chunk buffer
+	block         int    // > 0: park in the next call until released (deep scenarios)
+	blocked       int
+	rfCalls       int
+	lastBeh       int // effective behaviour of the last call
+	lastN         int
+	lastErr       error
 }
 
 func (s *sink) do(l int, viaString bool) (int, error) {
@@ -282,6 +289,62 @@ func (w sinkSWRF) Write(p []byte) (int, error)         { return w.s.do(len(p), f
 func (w sinkSWRF) WriteString(x string) (int, error)   { return w.s.do(len(x), true) }
 func (w sinkSWRF) ReadFrom(r io.Reader) (int64, error) { return w.s.readFrom(r) }
 
+var errClose = errors.New("verif: wrapped writer failed to close")
+
+// closed records a call of the wrapped writer's Close and says what it returns.
+func (s *sink) closed() error {
+	s.closeCalls++
+	if s.inPwClose {
+		s.closeCallsLib++
+	}
+	switch s.closeKind {
+	case "fail":
+		return errClose
+	case "already":
+		if s.closeCalls > 1 {
+			return errClose
+		}
+	case "slow":
+		for i := 0; i < 20; i++ {
+			runtime.Gosched()
+		}
+	}
+	return nil
+}
+
+type closerMixin struct{ c *sink }
+
+func (m closerMixin) Close() error { return m.c.closed() }
+
+// the scripted wrapped writers with a Close method
+type sinkWC struct {
+	sinkW
+	closerMixin
+}
+type sinkSWC struct {
+	sinkSW
+	closerMixin
+}
+type sinkRFC struct {
+	sinkRF
+	closerMixin
+}
+type sinkSWRFC struct {
+	sinkSWRF
+	closerMixin
+}
+
+// closePW calls pw.Close() whatever its signature is (Close() today; Close() error would compile too).
+func closePW(pw any) (err error, returnsError bool) {
+	switch c := pw.(type) {
+	case interface{ Close() error }:
+		return c.Close(), true
+	case interface{ Close() }:
+		c.Close()
+	}
+	return nil, false
+}
+
 // ---------------------------------------------------------------------------- scenario
 
 type opLog struct {
@@ -311,9 +374,12 @@ type scen struct {
 	ch chan int
 	sk *sink
 
-	long      bool
-	stuckRecv bool         // the writer was found parked in a receive/select/lock inside a write
-	lazyCh    atomic.Value // chan int obtained by a lazy consumer (read by release())
+	long            bool
+	wrapped         io.Writer
+	closeErr        error // what pw.Close() returned, if it returns anything
+	closeReturnsErr bool
+	stuckRecv       bool         // the writer was found parked in a receive/select/lock inside a write
+	lazyCh          atomic.Value // chan int obtained by a lazy consumer (read by release())
 
 	startSig, pauseSig, resumeSig chan struct{}
 	writerDone, consumerDone      chan struct{}
@@ -403,7 +469,14 @@ func writerLoop(s *scen) {
 	s.fire(s.startSig, &s.startFired, &startDone)
 	s.fire(s.resumeSig, &s.resumeFired, &resumeDone)
 	where = "Close"
-	pw.Close()
+	if cs.Closer == "already" {
+		if c, ok := s.wrapped.(io.Closer); ok {
+			c.Close() // the caller's own Close: the wrapped writer is closed before pw.Close()
+		}
+	}
+	s.sk.inPwClose = true
+	s.closeErr, s.closeReturnsErr = closePW(pw)
+	s.sk.inPwClose = false
 	s.closeReturned.Store(true)
 	where = "Size"
 	s.sizeAfterClose = pw.Size()
@@ -820,6 +893,9 @@ type stats struct {
 	scenLong, longOps, longInter            int64
 	afterCloseProbes, afterCloseSame        int64
 	afterCloseTotal0                        int64
+	closerScen                              map[string]int64
+	libCloseCalls, closerNotCalled          int64
+	pwCloseErr                              int64
 	// deep (thorough-only) coverage
 	maxTotal, crossed31, crossed32, boundaryHits, recvAbove31 int64
 	via                                                       [viaCount]int64
@@ -834,7 +910,7 @@ type stats struct {
 
 func newStats() *stats {
 	return &stats{scenKind: map[string]int64{}, scenKindInter: map[string]int64{}, patterns: map[uint64]struct{}{},
-		prof: map[string]int64{}, sizes: map[int]struct{}{}, osScen: map[string]int64{}}
+		prof: map[string]int64{}, sizes: map[int]struct{}{}, osScen: map[string]int64{}, closerScen: map[string]int64{}}
 }
 
 func errStr(e error) string {
@@ -883,14 +959,29 @@ func runOnce(cs Case, st *stats) (res result) {
 	case cs.SW:
 		w = sinkSW{s.sk}
 	}
+	if cs.Closer != "" {
+		s.sk.closeKind = cs.Closer
+		m := closerMixin{s.sk}
+		switch {
+		case cs.SW && cs.RF:
+			w = sinkSWRFC{sinkSWRF{s.sk}, m}
+		case cs.RF:
+			w = sinkRFC{sinkRF{s.sk}, m}
+		case cs.SW:
+			w = sinkSWC{sinkSW{s.sk}, m}
+		default:
+			w = sinkWC{sinkW{s.sk}, m}
+		}
+	}
 	if cs.OSW != "" {
-		ow, cleanup, err := openOSSink(cs.OSW, cs.Quota, s.sk)
+		ow, cleanup, err := openOSSink(cs.OSW, cs.Quota, s.sk, cs.Closer != "")
 		if err != nil {
 			return result{inconclusive: "cannot open the OS-backed wrapped writer: " + err.Error()}
 		}
 		defer cleanup()
 		w = ow
 	}
+	s.wrapped = w
 	func() {
 		defer func() {
 			if r := recover(); r != nil {
@@ -1056,6 +1147,16 @@ func (s *scen) check(st *stats) result {
 	}
 	if cs.Prof != "" {
 		s.deepStats(st, total)
+	}
+	if cs.Closer != "" {
+		st.closerScen[cs.Closer]++
+		st.libCloseCalls += int64(s.sk.closeCallsLib)
+		if s.sk.closeCallsLib == 0 {
+			st.closerNotCalled++
+		}
+	}
+	if s.closeErr != nil {
+		st.pwCloseErr++
 	}
 	if s.long {
 		st.scenLong++
@@ -1227,7 +1328,7 @@ type mon struct{}
 func (mon) Name() string { return "progress" }
 
 func (mon) Level(string) (string, string) {
-	return "exploration", "seeded random scenarios {wrapped writer kind full/shortErr/shortNil/fail0/failN/mixed × io.StringWriter or not} × {op list of Write/WriteString, sizes 0/1/7/4096/1MiB and random, ≤ 50 ops} × {consumer absent until Close, eager, slow, late start, stops-then-resumes}, run as real goroutines at GOMAXPROCS 1/2/4/16 plain and under -race; oracle offline over the writer log (n, err, Size(), Σn of the wrapped writer) and the consumer log; non-blocking decided from a goroutine snapshot, never from time; plus long scenarios (20000..100000 writes of 1..16 bytes next to an eager consumer) and lifetime batches (one or two small writes then Close, consumer busy during the last write, its first receive aligned with Close by a spin barrier with seeded offsets on either side); Write/Close never returning is decided from two identical consecutive goroutine snapshots of an at-rest state; callers scenarios send the data the way real callers do - io.Copy / io.CopyN / io.CopyBuffer from sources without WriteTo (io.LimitReader, plain struct reader, os.Pipe read end, *os.File), bytes.Buffer / strings.Reader WriteTo, io.WriteString, fmt.Fprintf, bufio.Writer (Write/WriteString/ReadFrom + Flush) - over wrapped writers that do or do not implement io.ReaderFrom, scripted (short / failing in the middle of a copy, reporting what they really consumed) or backed by the OS (temp file, /dev/null, /dev/full, broken pipe, pipe whose reader leaves after a quota), ground truth = every n the wrapped writer's Write/WriteString/ReadFrom returned; the method set of *ProgressWriter is recorded (reflect) as an observed set; thorough adds deep scenarios: seeded histories of 1000..8000 ops, sizes 2^k-1/2^k/2^k+1 up to 64 MiB, write sequences whose prefix sums land exactly on 2^31-1/2^31/2^31+1 and likewise around 2^32 and 2^33 (Size() is an int; totals up to 8 GiB), ops issued through io.WriteString / io.Copy (one op = several wrapped Writes), wrapped writers that also implement io.ReaderFrom or park inside Write until a helper releases them, consumers that are bursty, arrive at the last write or exactly at Close, fetch Status() late or again before every receive, long scenarios of up to 500000 writes, all at GOMAXPROCS 1/2/4/16, 1 or 4 scenarios at once, plain and under -race; after Close() returned and the consumer drained the channel, Status() is asked again (twice by the same goroutine, by two fresh goroutines concurrently, in lifetimes by consumer and writer goroutine) and must yield a closed channel, decided by a non-blocking receive; distinct_nontrivial = distinct scenario shapes (writer kind, ops with method/size/behaviour, consumer script) with at least one op and a non-zero total"
+	return "exploration", "seeded random scenarios {wrapped writer kind full/shortErr/shortNil/fail0/failN/mixed × io.StringWriter or not} × {op list of Write/WriteString, sizes 0/1/7/4096/1MiB and random, ≤ 50 ops} × {consumer absent until Close, eager, slow, late start, stops-then-resumes}, run as real goroutines at GOMAXPROCS 1/2/4/16 plain and under -race; oracle offline over the writer log (n, err, Size(), Σn of the wrapped writer) and the consumer log; non-blocking decided from a goroutine snapshot, never from time; plus long scenarios (20000..100000 writes of 1..16 bytes next to an eager consumer) and lifetime batches (one or two small writes then Close, consumer busy during the last write, its first receive aligned with Close by a spin barrier with seeded offsets on either side); Write/Close never returning is decided from two identical consecutive goroutine snapshots of an at-rest state; callers scenarios send the data the way real callers do - io.Copy / io.CopyN / io.CopyBuffer from sources without WriteTo (io.LimitReader, plain struct reader, os.Pipe read end, *os.File), bytes.Buffer / strings.Reader WriteTo, io.WriteString, fmt.Fprintf, bufio.Writer (Write/WriteString/ReadFrom + Flush) - over wrapped writers that do or do not implement io.ReaderFrom, scripted (short / failing in the middle of a copy, reporting what they really consumed) or backed by the OS (temp file, /dev/null, /dev/full, broken pipe, pipe whose reader leaves after a quota), ground truth = every n the wrapped writer's Write/WriteString/ReadFrom returned; the method set of *ProgressWriter is recorded (reflect) as an observed set; thorough adds deep scenarios: seeded histories of 1000..8000 ops, sizes 2^k-1/2^k/2^k+1 up to 64 MiB, write sequences whose prefix sums land exactly on 2^31-1/2^31/2^31+1 and likewise around 2^32 and 2^33 (Size() is an int; totals up to 8 GiB), ops issued through io.WriteString / io.Copy (one op = several wrapped Writes), wrapped writers that also implement io.ReaderFrom or park inside Write until a helper releases them, consumers that are bursty, arrive at the last write or exactly at Close, fetch Status() late or again before every receive, long scenarios of up to 500000 writes, all at GOMAXPROCS 1/2/4/16, 1 or 4 scenarios at once, plain and under -race; a share of the wrapped writers (scripted and *os.File-backed, also in lifetimes) has a Close method - succeeding, failing, failing because the caller closed it first, slow - whether the library calls it is recorded as an observed set, the post-conditions of pw.Close() (called through an interface assertion, with or without an error result) do not depend on it; after Close() returned and the consumer drained the channel, Status() is asked again (twice by the same goroutine, by two fresh goroutines concurrently, in lifetimes by consumer and writer goroutine) and must yield a closed channel, decided by a non-blocking receive; distinct_nontrivial = distinct scenario shapes (writer kind, ops with method/size/behaviour, consumer script) with at least one op and a non-zero total"
 }
 
 func (mon) Assumptions(string) []string {
@@ -1361,6 +1462,9 @@ func shapeKey(cs Case) string {
 			fmt.Fprintf(&sb, "v%d.b%d;", o.Via, o.Block)
 		}
 	}
+	if cs.Closer != "" {
+		sb.WriteString("closer:" + cs.Closer)
+	}
 	if cs.Prof != "" {
 		fmt.Fprintf(&sb, "deep:%s:%v:%d:%d:%v:%v", cs.Prof, cs.RF, cs.Cons.Burst, cs.Cons.Gap, cs.Cons.Refetch, cs.Cons.Lazy)
 	}
@@ -1470,6 +1574,19 @@ func (mn mon) Run(sh drv.Shard, c *drv.Ctx) {
 		c.Add("bytes_reported", st.bytesReported)
 		c.Add("scen_long", st.scenLong)
 		c.Add("status_after_close_probes", st.afterCloseProbes)
+		for k, n := range st.closerScen {
+			c.Add("scen_wrapped_closer_"+k, n)
+		}
+		if len(st.closerScen) > 0 {
+			c.Add("wrapped_Close_calls_made_by_pw.Close", st.libCloseCalls)
+			c.Add("pw.Close_returned_an_error", st.pwCloseErr)
+			if st.libCloseCalls > 0 {
+				c.SetAdd("library_called_wrapped_Close", "yes")
+			}
+			if st.closerNotCalled > 0 {
+				c.SetAdd("library_called_wrapped_Close", "no")
+			}
+		}
 		c.Add("status_after_close_same_channel_as_before", st.afterCloseSame)
 		c.Add("status_after_close_scen_with_total_0", st.afterCloseTotal0)
 		if len(st.prof) > 0 {
@@ -1553,7 +1670,7 @@ func runLifeShard(sh drv.Shard, a shardArgs, c *drv.Ctx, procs int) {
 		for j := int64(0); j < per; j++ {
 			p := nextLife(&x)
 			c.Distinct(uint64(p.Writes) | uint64(p.S1)<<2 | uint64(p.S2)<<7 | b2u(p.Str)<<12 | b2u(p.SW)<<13 | b2u(p.Early)<<14 | b2u(p.Lazy)<<15 |
-				uint64(p.MaxLag)<<16 | uint64(p.WLag)<<29 | uint64(p.CLag)<<42 | b2u(p.CRel)<<55 | 1<<63)
+				uint64(p.MaxLag)<<16 | uint64(p.WLag)<<29 | uint64(p.CLag)<<42 | b2u(p.CRel)<<55 | uint64(p.Closer)<<56 | 1<<63)
 		}
 	}
 	c.Sample(map[string]any{"lifetime_batch": spec, "gomaxprocs": procs, "lifetimes_completed": out.cnt.lifetimes.Load()})
@@ -1581,6 +1698,16 @@ func reportLife(c *drv.Ctx, out lifeOutcome, cs Case) {
 	c.Add("life_lazy_status", n.lazy.Load())
 	c.Add("life_WriteString_on_StringWriter", n.strSW.Load())
 	c.Add("status_after_close_probes", n.afterClose.Load())
+	c.Add("life_wrapped_writer_has_Close", n.closers.Load())
+	c.Add("wrapped_Close_calls_made_by_pw.Close", n.libClose.Load())
+	if n.closers.Load() > 0 {
+		if n.libClose.Load() > 0 {
+			c.SetAdd("library_called_wrapped_Close", "yes")
+		}
+		if n.libClose.Load() < n.closers.Load() {
+			c.SetAdd("library_called_wrapped_Close", "no")
+		}
+	}
 	c.Add("size_checks", n.sizeChecks.Load())
 	c.Add("watchdog_snapshots", out.snapshots)
 }
@@ -1616,6 +1743,9 @@ func (mon) Finish(prop, tier string, m *drv.Merged) (inc []string) {
 	}
 	for _, k := range osKinds {
 		need = append(need, "callers_scen_wrapped_os_"+k)
+	}
+	for _, k := range closerKinds {
+		need = append(need, "scen_wrapped_closer_"+k)
 	}
 	for _, k := range need {
 		if m.Sum[k] == 0 {
